@@ -281,3 +281,35 @@ Lemma value_column_taken_for_dimension_before_fix :
   convert false 1700 2300 [ex_age] false false (long_table [ex_age] ex_vlab ex_venc ex_array) = ORefused
   /\ convert true 1700 2300 [ex_age] false false (long_table [ex_age] ex_vlab ex_venc ex_array) = OValues (avals ex_array).
 Proof. split; vm_compute; reflexivity. Qed.
+
+(* to_df() with its default index=True: the dimensions are the (named) levels of the index, the value column is
+   the only column.  Resetting the index gives exactly the long table, for 1 or more dimensions. *)
+Definition index_table (tds : list tdim) (vlab : ent) (venc : Qc -> ent) (reset_label : ent) (a : fQ) : table :=
+  let rows := array_rows (map td tds) (avals a) in
+  mk_table (map (fun jd => mk_level (Some (name_ent (snd jd))) (snd (dim_column rows (fst jd) (snd jd))) reset_label)
+                (combine (seq 0 (length tds)) tds))
+           None [value_column vlab venc rows].
+
+Lemma reset_index_table tds vlab venc rl a lo hi : tds <> [] ->
+  reset_index lo hi (index_table tds vlab venc rl a) = reset_index lo hi (long_table tds vlab venc a).
+Proof.
+  intros Hne. unfold index_table, long_table, long_cols. cbn [reset_index t_levels t_cols t_int_range].
+  set (rows := array_rows (map td tds) (avals a)).
+  assert (E : map level_column (map (fun jd => mk_level (Some (name_ent (snd jd))) (snd (dim_column rows (fst jd) (snd jd))) rl)
+                                    (combine (seq 0 (length tds)) tds))
+              = map (fun jd => dim_column rows (fst jd) (snd jd)) (combine (seq 0 (length tds)) tds)).
+  { rewrite map_map. apply map_ext. intros [j d]. reflexivity. }
+  destruct tds as [|d0 [|d1 l]]; [contradiction| |].
+  - cbn [length seq combine map]. cbn [lv_name level_column lv_entries dim_column fst snd app]. reflexivity.
+  - rewrite <- E. remember (combine (seq 0 (length (d0 :: d1 :: l))) (d0 :: d1 :: l)) as cs eqn:Ecs.
+    destruct cs as [|c0 [|c1 cs]]; [discriminate | discriminate |]. reflexivity.
+Qed.
+
+Theorem detect_roundtrip_index (tds : list tdim) (vlab : ent) (venc : Qc -> ent) (rl : ent) (a : fQ) (lo hi : Z) :
+  tds <> [] -> labels_ok tds vlab venc -> adims a = map td tds ->
+  items_unique (map td tds) -> length (avals a) = size (dshape (map td tds)) ->
+  convert true lo hi tds false false (index_table tds vlab venc rl a) = OValues (avals a).
+Proof.
+  intros Hne Hok Hd Hu Hl. rewrite <- (detect_roundtrip_long tds vlab venc a lo hi Hok Hd Hu Hl).
+  unfold convert. rewrite (reset_index_table tds vlab venc rl a lo hi Hne). reflexivity.
+Qed.
